@@ -306,6 +306,7 @@ fn check_html(input: &str, opts: &HtmlOpts, st: &mut Stats) {
                     st.add(&format!("call:{k}"), *n);
                 }
             }
+            st.add("selectedcontent_mirrorings_that_copied_nodes", tee.m.inner.borrow().mirrorings_with_copies);
             if let Some((sig, d)) = compare(&tee, st) {
                 st.violation(&format!("html:{sig}"), &format!("input={} {}: {d}", show(input), opts.describe()), json!({"kind": "html", "input": input, "opts": super::c03::html_opts_json(opts)}));
             }
@@ -333,10 +334,19 @@ fn direct_sequence(seed: u64, nops: usize, st: &mut Stats) -> Option<(String, St
     let doc = tee.get_document();
     let mut nodes: Vec<TH> = vec![];
     let mut log: Vec<String> = vec![];
-    let names = ["div", "p", "b", "table", "template", "span"];
+    // one sequence in three uses the vocabulary of customizable <select>, and mirrors options into
+    // selectedcontent (the other operation the property names)
+    let select_flavour = rng.chance(1, 3);
+    let names: &[&str] = if select_flavour { &["select", "option", "option", "optgroup", "selectedcontent", "div", "template", "b", "hr", "button"] } else { &["div", "p", "b", "table", "template", "span"] };
     let mk = |tee: &Tee, rng: &mut Rng| -> TH {
-        let n = *rng.pick(&names);
-        let attrs = if rng.chance(1, 3) { vec![Attribute { name: qual("", "a"), value: "1".into() }] } else { vec![] };
+        let n = *rng.pick(names);
+        let mut attrs = if rng.chance(1, 3) { vec![Attribute { name: qual("", "a"), value: "1".into() }] } else { vec![] };
+        if n == "option" && rng.chance(2, 3) {
+            attrs.push(Attribute { name: qual("", "selected"), value: "".into() });
+        }
+        if n == "select" && rng.chance(1, 8) {
+            attrs.push(Attribute { name: qual("", "multiple"), value: "".into() });
+        }
         html5ever::tree_builder::create_element(tee, qual(crate::tree::NS_HTML, n), attrs)
     };
     // a root element so that there is always a container
@@ -435,6 +445,16 @@ fn direct_sequence(seed: u64, nops: usize, st: &mut Stats) -> Option<(String, St
                     st.count("direct:append-detached");
                 }
             },
+            11 if select_flavour => {
+                // mirror some option (not necessarily the target) into its select's selectedcontent
+                let opts: Vec<TH> = nodes.iter().filter(|n| tee.m.describe(n.1.id).starts_with("<option>")).cloned().collect();
+                if !opts.is_empty() {
+                    let o = opts[rng.below(opts.len())].clone();
+                    log.push(format!("#{opno} maybe_clone_an_option_into_selectedcontent(n{})", o.1.id));
+                    tee.maybe_clone_an_option_into_selectedcontent(&o);
+                    st.count("direct:clone-option");
+                }
+            },
             _ => {
                 if tee.m.describe(target.1.id).starts_with("<template>") {
                     let c = tee.get_template_contents(&target);
@@ -452,6 +472,7 @@ fn direct_sequence(seed: u64, nops: usize, st: &mut Stats) -> Option<(String, St
             }
         }
     }
+    st.add("selectedcontent_mirrorings_that_copied_nodes", tee.m.inner.borrow().mirrorings_with_copies);
     None
 }
 
@@ -529,7 +550,10 @@ pub fn run(args: &Args) -> (Meta, Stats) {
                 },
                 _ => {
                     let (mut input, opts) = random_html_case(&mut rng, &contexts, &[], false);
-                    if rng.chance(1, 10) {
+                    if rng.chance(1, 8) {
+                        input = gen::select_doc(&mut rng);
+                        st.count("select_grammar_inputs");
+                    } else if rng.chance(1, 10) {
                         input.push_str(rng.pick_s(&["<select><button><selectedcontent></selectedcontent></button><option selected>x<b>y</b></option></select>", "<select><selectedcontent></selectedcontent><option selected>a</option><option>b</option></select>", "<select multiple><selectedcontent></selectedcontent><option selected>a</option></select>"]));
                     }
                     check_html(&input, &opts, st);
@@ -543,11 +567,11 @@ pub fn run(args: &Args) -> (Meta, Stats) {
     });
     let mut m = super::meta(
         args,
-        "a tee sink forwards every TreeSink call to RcDom and to the abstract DOM; after each parse (HTML documents/fragments incl. adoption agency, foster parenting, duplicate <html>/<body>, customizable-select inputs; XML) and every 8 operations of direct random sequences of VALID operations (append of parentless nodes and text, append_before_sibling incl. nodes that already have a parent - also the same parent -, remove_from_parent, reparent_children, add_attrs_if_missing, template contents) the two trees must be structurally equal; every RcDom parent link must name the node whose child list contains the child; a recording Serializer driven by SerializableHandle must see each node once in document order. Non-trivial = more than 5 nodes / any direct sequence; distinct by input or sequence seed.",
+        "a tee sink forwards every TreeSink call to RcDom and to the abstract DOM; after each parse (HTML documents/fragments incl. adoption agency, foster parenting, duplicate <html>/<body>, a grammar of customizable-select documents with selected options, optgroup/div/datalist wrappers, nested selectedcontent and templates inside options; XML) and every 8 operations of direct random sequences of VALID operations (append of parentless nodes and text, append_before_sibling incl. nodes that already have a parent - also the same parent -, remove_from_parent, reparent_children, add_attrs_if_missing, template contents, and - in a third of the sequences, built from select/option/optgroup/selectedcontent/template elements - maybe_clone_an_option_into_selectedcontent) the two trees must be structurally equal; every RcDom parent link must name the node whose child list contains the child; a recording Serializer driven by SerializableHandle must see each node once in document order. Non-trivial = more than 5 nodes / any direct sequence; distinct by input or sequence seed.",
         &["the abstract DOM implements the documented sink semantics (text merging on append and before a sibling, add_attrs never overwrites, reparent moves in order, option -> first selectedcontent descendant in tree order with deep copies)", "RcDom does not store the duplicate-attribute flag; it is not compared"],
     );
     if !sanit {
-        m.require = vec![("html_runs".into(), 2000), ("xml_runs".into(), 500), ("direct_sequences".into(), 2000), ("direct:before-sibling-node-same-parent".into(), 100), ("serialize_order_audits".into(), 2000), ("call:reparent_children".into(), 50)];
+        m.require = vec![("html_runs".into(), 2000), ("xml_runs".into(), 500), ("direct_sequences".into(), 2000), ("direct:before-sibling-node-same-parent".into(), 100), ("serialize_order_audits".into(), 2000), ("call:reparent_children".into(), 50), ("select_grammar_inputs".into(), 200), ("direct:clone-option".into(), 500), ("selectedcontent_mirrorings_that_copied_nodes".into(), 100)];
     }
     (m, st)
 }
